@@ -580,8 +580,14 @@ func (o *oracle) onSyncMessage(b cluster.Broadcast, key string, sm core.SignedSy
 			okRoot = true
 		}
 	}
-	if uint64(sm.Slot) != b.Duty.Slot || !okRoot {
+	if !okRoot {
 		c.Violate("C01", "validity", "signed-content-never-signed-by-an-honest-validator-client", "%s: node %d broadcast a sync message for slot %d root %x which no honest validator client signed for this duty", key, b.Node, sm.Slot, sm.BeaconBlockRoot[:3])
+	} else if uint64(sm.Slot) != b.Duty.Slot {
+		// the slot of a sync committee message is not part of its signing root (only its epoch's fork version
+		// is): a Byzantine partial for another slot of the same fork and the same head root matches the honest
+		// ones, and sigagg takes the carrier object from the first partial. The statement (valid group
+		// signature, one signing root) holds; the foreign unsigned field is recorded, like the other carrier fields
+		verifrt.Probe("broadcast-sync-message-with-foreign-unsigned-slot")
 	}
 }
 
